@@ -44,6 +44,7 @@ type FuncContract struct {
 	NoPanic  bool     // no panic may leave this function
 	MayPanic bool     // callers must expect a panic
 	Preserves []string // heap key patterns the function leaves untouched (except on fresh objects)
+	OwnsNavs []string // slices of navigators this function created: callees do not move them (assumed ownership)
 	KeepsCursor bool // assumed: the callee moves only navigators it created, never the caller's context cursor
 	Pure bool // deterministic and side-effect free: a call is an uninterpreted function of the arguments
 	Uses []string // names of axioms assumed at entry
@@ -253,6 +254,8 @@ func parseContracts(path string) (*Contracts, error) {
 				cur.Pure = true
 			case "keeps-cursor":
 				cur.KeepsCursor = true
+			case "owns-navigators":
+				cur.OwnsNavs = append(cur.OwnsNavs, strings.Fields(rest)...)
 			case "uses":
 				cur.Uses = append(cur.Uses, strings.Fields(rest)...)
 			case "preserves":
@@ -272,7 +275,11 @@ func parseContracts(path string) (*Contracts, error) {
 				cl.Expr = rest
 				cur.Clauses = append(cur.Clauses, cl)
 				last = cl
-			case "requires", "ensures", "captures", "assume", "lockinv", "apply":
+			case "apply":
+				cl := &Clause{Kind: "apply", Expr: rest, Loop: -2, Line: ln}
+				cur.Clauses = append(cur.Clauses, cl)
+				last = cl
+			case "requires", "ensures", "captures", "assume", "lockinv":
 				cl := &Clause{Kind: kw, Line: ln}
 				cl.Label, cl.Props, rest = parseLabel(rest)
 				cl.Expr = rest
@@ -354,8 +361,14 @@ func (c *Clause) exclusive() ([]string, bool) {
 		return nil, false
 	}
 	out := append([]string(nil), c.Props...)
-	out[len(out)-1] = strings.TrimSuffix(out[len(out)-1], "!")
+	out[len(out)-1] = strings.TrimRight(out[len(out)-1], "!")
 	return out, true
+}
+
+// localOnly: `[label@Cxx!!]` — proved where the function returns, never handed to callers (they
+// rely on a more abstract clause of the same contract).
+func (c *Clause) localOnly() bool {
+	return len(c.Props) > 0 && strings.HasSuffix(c.Props[len(c.Props)-1], "!!")
 }
 
 // parseSig parses "name(a, b) r1, r2" into its parts.
